@@ -1393,6 +1393,15 @@ func (vm *VM) Reset() {
 	vm.halted = false
 }
 
+// IsBuiltin reports whether name is a built-in function, the only kind of
+// callee OpCall can resolve.
+func IsBuiltin(name string) bool {
+	_, ok := builtinNames[name]
+	return ok
+}
+
+var builtinNames = NewVM().builtins
+
 // registerBuiltins registers all built-in functions
 func (vm *VM) registerBuiltins() {
 	// time.now() - returns current Unix timestamp
